@@ -206,6 +206,56 @@ func init() {
 			return mkBool(false)
 		})
 	}
+	// ---- atomic.Value: the interface value lives in the struct's only field; Load / Store / Swap are
+	// scheduling points and acquire-release edges through that cell (the real code casts through unsafe) ----
+	avCell := func(in *Interp, v Value) *Value {
+		p, ok := v.(*Value)
+		if !ok || p == nil {
+			in.tpanic("nil-deref", "nil *atomic.Value")
+		}
+		st, ok := (*p).(Struct)
+		if !ok || len(st) == 0 {
+			panic(engineErr("atomic.Value: unexpected representation"))
+		}
+		return &st[0]
+	}
+	avNil := func(v Value) bool {
+		i, ok := v.(Iface)
+		return v == nil || (ok && i.T == nil)
+	}
+	reg("(*sync/atomic.Value).Load", func(in *Interp, fr *frame, a []Value) Value {
+		c := avCell(in, a[0])
+		in.syncPoint("atomic", c)
+		if *c == nil {
+			return Iface{}
+		}
+		return *c
+	})
+	reg("(*sync/atomic.Value).Store", func(in *Interp, fr *frame, a []Value) Value {
+		c := avCell(in, a[0])
+		if avNil(a[1]) {
+			in.tpanic("panic", "sync/atomic: store of nil value into Value")
+		}
+		in.syncPoint("atomic", c)
+		if old, ok := (*c).(Iface); ok && old.T != nil && !types.Identical(old.T, a[1].(Iface).T) {
+			in.tpanic("panic", "sync/atomic: store of inconsistently typed value into Value")
+		}
+		*c = a[1]
+		return nil
+	})
+	reg("(*sync/atomic.Value).Swap", func(in *Interp, fr *frame, a []Value) Value {
+		c := avCell(in, a[0])
+		if avNil(a[1]) {
+			in.tpanic("panic", "sync/atomic: swap of nil value into Value")
+		}
+		in.syncPoint("atomic", c)
+		old := *c
+		if old == nil {
+			old = Iface{}
+		}
+		*c = a[1]
+		return old
+	})
 	reg("sync/atomic.LoadPointer", func(in *Interp, fr *frame, a []Value) Value {
 		in.syncPoint("atomic", a[0].(*Value))
 		return *(a[0].(*Value))
